@@ -82,14 +82,18 @@ func (nfs *Nfs) makeRootDir() {
 func makeFs(super *super.FsSuper) {
 	util.DPrintf(1, "mkfs")
 
+	// The root inode is what marks the disk as formatted, so it must reach
+	// the disk only after the bitmaps have.
+	markAlloc(super, super.DataStart(), super.MaxBnum())
+	super.Disk.Barrier()
+
 	root := inode.MkRootInode()
 	util.DPrintf(1, "root %v\n", root)
 	raddr := super.Inum2Addr(common.ROOTINUM)
 	rootblk := root.Encode()
 	rootbuf := buf.MkBuf(raddr, common.INODESZ*8, rootblk)
 	rootbuf.WriteDirect(super.Disk)
-
-	markAlloc(super, super.DataStart(), super.MaxBnum())
+	super.Disk.Barrier()
 }
 
 func markAlloc(super *super.FsSuper, n common.Bnum, m common.Bnum) {
